@@ -341,6 +341,12 @@ def T14():
             Menu("common", children=[Cfg("SHARED", B, "shared (common menu)", extra=["# ignore: multiple-definition"]), Cfg("USES_SHARED", B, "uses shared", depends=["SHARED"])]),
             Menu("common2", children=[Cfg("SHARED2", B, "shared2 (common menu)"), Cfg("USES_SHARED2", I, "uses shared2", depends=["SHARED2"], defaults=[("1", None)])]),
             Menu("esp32 extras", visible_if=["IDF_TARGET_ESP32"], children=[Cfg("SHARED2", B, "shared2 (esp32 menu)", extra=["# ignore: multiple-definition"])]),
+            # a choice that exists for every target, with members that exist for one target only and that force / are
+            # the default value of other documented options
+            Choice("REV", "chip revision", children=[Cfg("REV_A", B, "rev a", depends=["IDF_TARGET_ESP32"]), Cfg("REV_B", B, "rev b", depends=["IDF_TARGET_ESP32C6"], selects=[("REVOPT", None)], sets=[("REVNUM", "3", None)]), Cfg("REV_C", B, "rev c")]),
+            Cfg("REVOPT", B, "revopt"),
+            Cfg("REVNUM", I, "revnum", defaults=[("1", None)]),
+            Cfg("REVDEF", B, "revdef", defaults=[("REV_B", None)]),
         ],
     )
 
